@@ -389,6 +389,12 @@ class DictList(list):
     def insert(self, index: int, entity: Object) -> None:
         """Insert entity before index."""
         self._check(entity.id)
+        # list.insert clamps negative and too large indices
+        length = len(self)
+        if index < 0:
+            index = max(0, length + index)
+        elif index > length:
+            index = length
         list.insert(self, index, entity)
         # all subsequent entries now have been shifted up by 1
         _dict = self._dict
